@@ -2,8 +2,10 @@
 M-Proto proofs, part 4 (C17): concrete witnesses, all by kernel evaluation (`decide`).
 D42 (conflicts were detected on raw strings while files are written at the cleaned join) and
 D34 (a Thrift file called "...thrift" made the core generator leave the output directory) are
-repaired: their former witnesses are regression theorems now. D33 (the write loop is not
-atomic) is NOT repaired and stays a negation witness.
+repaired, and so is D33 (a plan whose paths clash file-vs-directory, or name the output
+directory itself, used to be accepted and then failed half-way through the write loop): their
+former witnesses are regression theorems now. What stays is that the write loop by itself is
+not atomic when the operating system refuses a write.
 -/
 import ThriftVerif.Proto.PlanProofs2
 import ThriftVerif.Proto.PathProofs2
@@ -65,17 +67,70 @@ theorem findCommonAncestor_examples :
     findCommonAncestor ["/a/x.thrift".toList, "/b/y.thrift".toList] = none ∧
     findCommonAncestor ["/a/x.thrift".toList, "b/y.thrift".toList] = none := by decide
 
-/-- D33: the plan succeeded (two different cleaned paths), the first file is written, the
-second write fails because its path is now a directory; the first file stays. -/
+/-- the write loop by itself is not atomic: given two writes that clash (a file below a path
+that is also to be a file), the first file is written, the second write fails because its
+path is now a directory; the first file stays. (Before the D33 repair a plan could contain
+these two writes.) -/
 theorem write_loop_not_atomic_witness :
     writeLoop ⟨[], []⟩ [("/o/main/main.go".toList, [1]), ("/o/main".toList, [2])]
       = (⟨[("/o/main/main.go".toList, [1])], ["/o".toList, "/o/main".toList]⟩, false) := by
   decide
 
-/-- and the plan that leads there is accepted. -/
-theorem write_loop_not_atomic_plan :
+/-- D33 (fixed), regression: the plan that led there — `main/main.go` from one plugin, `main`
+from another — is refused, in either completion order; so is a plugin file `main` beside the
+core file `main/main.go`, a plugin file below the core file, and one plugin with `a`, `a/b.go`. -/
+theorem file_vs_directory_refused_witness :
     generatePlan "/r".toList "/o".toList []
         [some [("main/main.go".toList, [1])], some [("main".toList, [2])]] [0, 1]
-      = .ok [("/o/main/main.go".toList, [1]), ("/o/main".toList, [2])] := by decide
+      = .error .fileVsDir ∧
+    generatePlan "/r".toList "/o".toList []
+        [some [("main/main.go".toList, [1])], some [("main".toList, [2])]] [1, 0]
+      = .error .fileVsDir ∧
+    generatePlan "/r".toList "/o".toList [⟨"/r/main.thrift".toList, some [1]⟩]
+        [some [("main".toList, [2])]] [0]
+      = .error .fileVsDir ∧
+    generatePlan "/r".toList "/o".toList [⟨"/r/main.thrift".toList, some [1]⟩]
+        [some [("main/main.go/x".toList, [2])]] [0]
+      = .error .fileVsDir ∧
+    generatePlan "/r".toList "/o".toList []
+        [some [("a".toList, [1]), ("a/b.go".toList, [2])]] [0]
+      = .error .fileVsDir :=
+  ⟨by decide, by decide, by decide, by decide, by decide⟩
+
+/-- D33 (fixed), regression: a plugin path that denotes the output directory itself ("", ".",
+"./", "/") is refused — and reported first when there is a file-vs-directory clash as well. -/
+theorem output_directory_refused_witness :
+    generatePlan "/r".toList "/o".toList [] [some [([], [1])]] [0] = .error .outDirItself ∧
+    generatePlan "/r".toList "/o".toList [] [some [(".".toList, [1])]] [0] = .error .outDirItself ∧
+    generatePlan "/r".toList "/o".toList [] [some [("./".toList, [1])]] [0] = .error .outDirItself ∧
+    generatePlan "/r".toList "/o".toList [] [some [("/".toList, [1])]] [0] = .error .outDirItself ∧
+    generatePlan "/r".toList "/o".toList []
+        [some [("a/b".toList, [1]), ("a".toList, [2]), ([], [3])]] [0] = .error .outDirItself :=
+  ⟨by decide, by decide, by decide, by decide, by decide⟩
+
+/-- names that merely resemble each other are not a clash. -/
+theorem near_clashes_accepted_witness :
+    generatePlan "/r".toList "/o".toList [⟨"/r/main.thrift".toList, some [1]⟩]
+        [some [("main-x".toList, [2]), ("mai".toList, [3]), ("main/main.gox".toList, [4])]] [0]
+      = .ok [("/o/main/main.go".toList, [1]), ("/o/main-x".toList, [2]), ("/o/mai".toList, [3]),
+          ("/o/main/main.gox".toList, [4])] := by decide
+
+/-- what is left: an ACCEPTED plan on an output directory that is in the way (a regular file
+`main` where the plan needs a directory). The first file is written, `MkdirAll` then fails. -/
+theorem write_loop_blocked_witness :
+    generatePlan "/r".toList "/o".toList []
+        [some [("a.go".toList, [1]), ("main/x.go".toList, [2])]] [0]
+      = .ok [("/o/a.go".toList, [1]), ("/o/main/x.go".toList, [2])] ∧
+    writeLoop ⟨[("/o/main".toList, [9])], ["/o".toList]⟩
+        [("/o/a.go".toList, [1]), ("/o/main/x.go".toList, [2])]
+      = (⟨[("/o/main".toList, [9]), ("/o/a.go".toList, [1])], ["/o".toList]⟩, false) := by decide
+
+/-- … and the same plan on an output directory that is not in the way (other files, a stale
+`a.go`, the directory `main` already there): everything is written, `a.go` replaced. -/
+theorem write_loop_existing_witness :
+    writeLoop ⟨[("/o/existing.txt".toList, [9]), ("/o/a.go".toList, [7])], ["/o".toList, "/o/main".toList]⟩
+        [("/o/a.go".toList, [1]), ("/o/main/x.go".toList, [2])]
+      = (⟨[("/o/existing.txt".toList, [9]), ("/o/a.go".toList, [1]), ("/o/main/x.go".toList, [2])],
+          ["/o".toList, "/o/main".toList]⟩, true) := by decide
 
 end ThriftVerif.Proto
